@@ -125,3 +125,61 @@ package checker
 //@   ensures !hasRule(node, constraint.TypesListConstraintType) ==> normal
 //@   ensures hasRule(node, constraint.TypesListConstraintType) ==> (panics <==> (linkFails(c.rootSchema, ss, node) || !allowsKind(c.rootSchema, ss, node, jtypeOf(node))))
 //@   ensures panics ==> errWF(pv)
+
+// ---- C09: "depth-first walk over required edges with a visited set that is
+// undone on leave": whatever the walk of a node or a type returns (nil or an
+// error), the visited set is what it was before ----
+
+//@ func (*recursionChecker).visit(typeName)
+//@   props C09
+//@   requires c != nil && c.visited != nil
+//@   nopanic
+//@   modifies c.path, c.path[*], c.visited[*]
+//@   ensures result == !old(dom(c.visited, typeName))
+//@   ensures forall k string :: dom(c.visited, k) <==> (old(dom(c.visited, k)) || k == typeName)
+//@   ensures len(c.path) == old(len(c.path)) + 1
+//@   ensures c.path.$arr == old(c.path.$arr) || c.path.$arr > old(alloc)
+
+//@ func (*recursionChecker).leave(typeName)
+//@   props C09
+//@   requires c != nil
+//@   nopanic
+//@   modifies c.path, c.visited[*]
+//@   ensures forall k string :: dom(c.visited, k) <==> (old(dom(c.visited, k)) && k != typeName)
+//@   ensures c.path.$arr == old(c.path.$arr)
+
+//@ func (*recursionChecker).createError()
+//@   props C07 C09
+//@   requires c != nil
+//@   nopanic
+//@   ensures result != nil && errWF(result)
+
+//@ func (*recursionChecker).checkType(typeName, types)
+//@   props C09
+//@   requires c != nil && c.visited != nil
+//@   maypanic
+//@   modifies c.path, c.path[*], c.visited[*]
+//@   ensures (normal || panics) ==> (forall k string :: dom(c.visited, k) <==> old(dom(c.visited, k)))
+//@   ensures (normal || panics) ==> (c.path.$arr == old(c.path.$arr) || c.path.$arr > old(alloc))
+
+//@ func (*recursionChecker).checkMixedValueNode(node, types)
+//@   props C09
+//@   requires c != nil && c.visited != nil && node != nil
+//@   maypanic
+//@   modifies c.path, c.path[*], c.visited[*]
+//@   ensures (normal || panics) ==> (forall k string :: dom(c.visited, k) <==> old(dom(c.visited, k)))
+//@   ensures (normal || panics) ==> (c.path.$arr == old(c.path.$arr) || c.path.$arr > old(alloc))
+//@   loop 0 invariant forall k string :: dom(c.visited, k) <==> old(dom(c.visited, k))
+//@   loop 0 invariant c.path.$arr == old(c.path.$arr) || c.path.$arr > old(alloc)
+//@   loop 0 invariant len(errs) <= rangeindex + 1 && errs.$arr > old(alloc)
+
+//@ func (*recursionChecker).check(node, types)
+//@   props C09
+//@   requires c != nil && c.visited != nil
+//@   assumes isNode(node) && consReady(node) && (hasRule(node, constraint.OptionalConstraintType) ==> typeis(consOf(node).data[constraint.OptionalConstraintType], *constraint.Optional))
+//@   maypanic
+//@   modifies c.path, c.path[*], c.visited[*]
+//@   ensures (normal || panics) ==> (forall k string :: dom(c.visited, k) <==> old(dom(c.visited, k)))
+//@   ensures (normal || panics) ==> (c.path.$arr == old(c.path.$arr) || c.path.$arr > old(alloc))
+//@   loop 0 invariant forall k string :: dom(c.visited, k) <==> old(dom(c.visited, k))
+//@   loop 0 invariant c.path.$arr == old(c.path.$arr) || c.path.$arr > old(alloc)
